@@ -75,7 +75,7 @@ func genOp(t *rapid.T) Op {
 		op.EOFData = rapid.IntRange(0, 3).Draw(t, "eofdata") == 0
 	default:
 		op.Kind = "transform"
-		op.TKind = rapid.SampledFrom([]string{"longer", "shorter", "same", "error", "unchanged", "longer", "shorter"}).Draw(t, "tkind")
+		op.TKind = rapid.SampledFrom([]string{"longer", "shorter", "same", "error", "unchanged", "longer", "shorter", "aliasprefix", "aliasprefix", "aliasappend"}).Draw(t, "tkind")
 		op.Delta = rapid.SampledFrom([]int{1, 7, 300, 5000, 40000}).Draw(t, "delta")
 		op.Yield = rapid.IntRange(0, 2).Draw(t, "yield")
 	}
@@ -135,8 +135,11 @@ func value(id, l int) []byte {
 	}
 }
 
-// parse returns the id of a value, or ok=false if b is not exactly one value.
-func parse(b []byte) (id int, ok bool) {
+// parse returns the identity of a value, or ok=false if b is not a value. A value is
+// value(id, n) or a prefix of it that still contains the whole header (Transform functions
+// may return a prefix of what they were given); its identity is (id, length), so a read that
+// was cut short is a value nobody ever wrote.
+func parse(b []byte) (ident int, ok bool) {
 	if len(b) < 5 || b[0] != '<' {
 		return 0, false
 	}
@@ -150,13 +153,22 @@ func parse(b []byte) (id int, ok bool) {
 	}
 	id, err1 := strconv.Atoi(string(parts[0]))
 	n, err2 := strconv.Atoi(string(parts[1]))
-	if err1 != nil || err2 != nil || n != len(b) {
+	if err1 != nil || err2 != nil || n < len(b) {
 		return 0, false
 	}
-	if !bytes.Equal(value(id, n), b) {
+	if !bytes.Equal(value(id, n)[:len(b)], b) {
 		return 0, false
 	}
-	return id, true
+	return id*1000000 + len(b), true
+}
+
+// identOf returns the identity of a value the harness itself produced.
+func identOf(v []byte) int {
+	id, ok := parse(v)
+	if !ok {
+		panic("harness produced an unparsable value")
+	}
+	return id
 }
 
 const (
@@ -268,7 +280,7 @@ func run(t *testing.T, plan any, keep bool) *simcheck.Outcome {
 	published := false // some Write or successful Transform has returned
 	initState := absent
 	if !p.Fresh {
-		initState = 1
+		initState = identOf(value(1, lengths[p.InitLen]))
 		os.WriteFile(path, value(1, lengths[p.InitLen]), 0o666)
 	}
 	id0 := invoke(0, input{"init", initState})
@@ -323,7 +335,7 @@ func run(t *testing.T, plan any, keep bool) *simcheck.Outcome {
 			ret(client, eid, output{id: id})
 		case "write":
 			v := value(opid, lengths[op.Len])
-			eid := invoke(client, input{kind: "write", id: opid})
+			eid := invoke(client, input{kind: "write", id: identOf(v)})
 			err := lockedfile.Write(path, &chunkReader{v, max(p.Chunk, len(v)/12), op.EOFData}, 0o666)
 			ret(client, eid, output{err: err != nil})
 			if err != nil {
@@ -359,15 +371,47 @@ func run(t *testing.T, plan any, keep bool) *simcheck.Outcome {
 					newID = o.id
 					return old, nil
 				case "longer":
-					return value(opid, len(old)+op.Delta), nil
+					v := value(opid, len(old)+op.Delta)
+					newID = identOf(v)
+					return v, nil
 				case "shorter":
-					return value(opid, max(len(old)-op.Delta, 0)), nil
+					v := value(opid, max(len(old)-op.Delta, 0))
+					newID = identOf(v)
+					return v, nil
+				case "aliasprefix":
+					// the result is a prefix of the very slice the function was given
+					hdr := bytes.IndexByte(old, '>') + 1
+					k := max(hdr, len(old)-op.Delta)
+					if o.id <= 0 || hdr <= 0 || k >= len(old) {
+						newID = o.id
+						return old, nil
+					}
+					newID = identOf(old[:k])
+					return old[:k], nil
+				case "aliasappend":
+					// the result extends the given slice in place (append into its spare capacity
+					// when there is some): only a prefix value can grow towards its full length
+					if o.id > 0 {
+						if i := bytes.IndexByte(old, '>'); i > 0 {
+							parts := bytes.Split(old[1:i], []byte(":"))
+							vid, _ := strconv.Atoi(string(parts[0]))
+							n, _ := strconv.Atoi(string(parts[1]))
+							if extra := min(op.Delta, n-len(old)); extra > 0 {
+								r := append(old, value(vid, n)[len(old):len(old)+extra]...)
+								newID = identOf(r)
+								return r, nil
+							}
+						}
+					}
+					newID = o.id
+					return old, nil
 				default:
 					v := value(opid, len(old))
 					if len(v) != len(old) {
 						newID = o.id
 						return old, nil
 					}
+					newID = identOf(v)
 					return v, nil
 				}
 			})
@@ -505,7 +549,7 @@ func describe(evs []porcupine.Event) string {
 var harness = &simcheck.Harness{
 	Property: "C07",
 	Level:    "exploration",
-	Rule: "rapid draws 1-3 simulated processes x 1-2 goroutines x 1-4 operations (Read, Write of a self-checking value of length 0..70000 fed in chunks, Transform producing a longer / shorter / same-length / unchanged value or failing) " +
+	Rule: "rapid draws 1-3 simulated processes x 1-2 goroutines x 1-4 operations (Read, Write of a self-checking value of length 0..70000 fed in chunks, Transform producing a longer / shorter / same-length / unchanged value, a prefix of or an in-place extension of the slice it was given, or failing) " +
 		"on one file that exists (5 of 6) or is absent at the start; a third of the plans add one Transform in its own process whose k-th file operation fails or writes short then fails; thorough adds double faults; " +
 		"torn transfers on/off; histories of at most 24 operations are checked with porcupine; non-trivial = some operation started while another was in flight; distinct by decision-trace hash",
 	Gen:     genPlan,
